@@ -204,7 +204,7 @@ class Case:
             self.idles.append(i)
             return "idle %d" % i
         if r.random() < self.p.get("idle_burst", 0.15):
-            n = r.randrange(4, 11)
+            n = r.randrange(4, 11) if top else r.randrange(2, 5)
             self.count("idle_burst")
             return ("\n" if top else " ; ").join(one() for _ in range(n))
         return one()
@@ -302,6 +302,10 @@ class Case:
         if self.kind[k] == "gen" and r.random() < 0.7:
             ops.append("read %d" % self.gen_fd[k])
         which = "*" if r.random() < 0.7 else str(r.randrange(1, 3))
+        if which == "*" and self.kind[k] in ("chan", "sync"):
+            # a channel whose every callback sends to itself again is drained 1024 messages at a time, for ever: keep
+            # self-feeding to the programs that run for one invocation only
+            ops = [o for o in ops if not o.startswith("send %d " % k)]
         return "script %d %s : %s" % (k, which, " ; ".join(ops + ["ret " + self.ret_for(k)]))
 
     def build(self):
